@@ -53,14 +53,17 @@ static void ADJ_errString_assign(struct ADJ_Parser *self) { (void)self; }     /*
 /* the storage of adj->cov is a live block of sz doubles (sz == 0: an empty block) */
 #define ADJ_COV_WF(c) (0 <= (c)->sz && (c)->sz <= ADJ_MAXSZ && OFF((c)->rep) == 0 && __CPROVER_rw_ok((c)->rep, (c)->sz * DSZ))
 /* INVARIANT of the element stream, from </band> to </cov-mat>:  begin() <= tmp_i <= tmp_e == end()  inside adj->cov */
-#define ADJ_ITER_INV(p) ((p)->gv_iter_init && ADJ_COV_WF(&(p)->adj->cov) &&                                          \
+#define ADJ_ITER_SPAN(p) (ADJ_COV_WF(&(p)->adj->cov) &&                                                                 \
                          SAME((p)->tmp_i, (p)->adj->cov.rep) && SAME((p)->tmp_e, (p)->adj->cov.rep) &&               \
                          OFF((p)->tmp_e) == (p)->adj->cov.sz * DSZ && 0 <= OFF((p)->tmp_i) &&                        \
                          OFF((p)->tmp_i) <= OFF((p)->tmp_e) && OFF((p)->tmp_i) % DSZ == 0)
+/* the element iterators are DEFINED: both null (<cov-mat> opened, nothing announced yet) or spanning the storage of adj->cov */
+#define ADJ_ITER_INV(p) ((p)->gv_iter_init && (((p)->tmp_i == NULL && (p)->tmp_e == NULL) || ADJ_ITER_SPAN(p)))
 
 /* ---- ghost record of one handler call --------------------------------------------------------------------------- */
 enum ADJ_handler { ADJ_H_none, ADJ_H_cov_mat, ADJ_H_dim, ADJ_H_band, ADJ_H_flt, ADJ_H_point, ADJ_H_coordinates,
                    ADJ_H_x, ADJ_H_y, ADJ_H_z };
+int gv_usable, gv_dim0;         /* ghost of </band>: verdict of ADJ_DIMS_USABLE, tmp_dim at entry */
 int gv_push_n;                 /* handlers pushed on the end-tag stack by this call            */
 int gv_push_h;                 /* ... the last one                                              */
 int gv_get_failed;             /* get_int / get_float reported a syntax error in this call      */
@@ -108,12 +111,10 @@ static double ADJ_get_float(struct ADJ_Parser *self)
 static void ADJ_CovMat_reset(struct ADJ_CovMat *c, int d, int b)
 {
   long n;
-#ifdef GV_EXCL_ADJRES_DIM_UNCHECKED
-  /* exclusion predicate of the finding "Parser::band hands unchecked <dim>/<band> numbers to CovMat::reset" */
-  __CPROVER_assume(0 <= b && b < d && d <= ADJ_MAXDIM);
-#endif
-  __CPROVER_assert(0 <= b && b < d && d <= ADJ_MAXDIM, "CovMat::reset(dim, band) is given 0 <= band < dim <= 2^15 (its precondition; the numbers come straight from <dim> and <band>)");
-  __CPROVER_assume(1 <= n && n <= ADJ_MAXSZ);
+  /* precondition of CovMat::reset: a d x d band matrix (0, 0 when there are no unknowns) whose element count
+     d*(b+1) - b*(b+1)/2 is computed in int; exact criterion written without overflow on the specification side */
+  __CPROVER_assert(0 <= b && (b < d || (b == 0 && d == 0)) && d <= 2147483647 / (b + 1), "CovMat::reset(dim, band) is given 0 <= band < dim (or 0, 0) with an element count that fits an int (its precondition; the numbers come straight from <dim> and <band>)");
+  __CPROVER_assume(0 <= n && n <= ADJ_MAXSZ);
   c->rep = malloc((size_t)n * 8);
   __CPROVER_assume(c->rep != NULL);
   c->sz = n;
@@ -204,21 +205,36 @@ GV_CANARY("ADJ_dim entry");
 /* </band>: adj->cov is dimensioned and the iterators span its storage                                */
 //@ contract ADJ_band
 ADJ_COMMON_PRE
-__CPROVER_assigns(self->state, self->errCode, self->errLineNumber, self->tmp_band, self->tmp_i, self->tmp_e,
-                  self->gv_iter_init, __CPROVER_object_whole(self->adj), gv_push_n, gv_push_h, gv_get_failed, gv_int)
+__CPROVER_assigns(self->state, self->errCode, self->errLineNumber, self->tmp_dim, self->tmp_band, self->tmp_i, self->tmp_e,
+                  self->gv_iter_init, __CPROVER_object_whole(self->adj), gv_push_n, gv_push_h, gv_get_failed, gv_int, gv_usable, gv_dim0)
 ADJ_START_POST(ADJ_H_band, s_band)
 __CPROVER_ensures(start ==> (self->tmp_band == __CPROVER_old(self->tmp_band) && self->tmp_i == __CPROVER_old(self->tmp_i) &&
                              self->tmp_e == __CPROVER_old(self->tmp_e) &&
                              self->gv_iter_init == __CPROVER_old(self->gv_iter_init) &&
                              self->adj->cov.rep == __CPROVER_old(self->adj->cov.rep) &&
                              self->adj->cov.sz == __CPROVER_old(self->adj->cov.sz)))
-__CPROVER_ensures(!start ==> (self->tmp_band == gv_int && self->adj->cov.dim == self->tmp_dim &&
-                              self->adj->cov.band == self->tmp_band))
-__CPROVER_ensures(!start ==> (ADJ_ITER_INV(self) && OFF(self->tmp_i) == 0))
-__CPROVER_ensures(!start ==> self->state == ADJ_END_STATE(s_flt_end))
+/* the announced pair (dim, band) is usable: a dim x dim matrix with band < dim (0, 0 when there are no unknowns) whose
+   element count fits an int -- taken from the property ("performs no out-of-bounds ... access, and either accepts the
+   input or reports an error that names a line"), not from the code */
+#define ADJ_DIMS_USABLE(d, b) (0 <= (b) && ((b) < (d) || ((b) == 0 && (d) == 0)) && (d) <= 2147483647 / ((b) + 1))
+/* gv_usable is ADJ_DIMS_USABLE evaluated by a ghost statement at the point where both numbers are known, on the values the
+   postcondition speaks about (asserted there: tmp_dim is still the number </dim> stored, tmp_band is the number just
+   converted); naming the verdict keeps the solver from having to equate two 32-bit dividers */
+__CPROVER_ensures((!start && gv_usable) ==>
+                  (self->tmp_band == gv_int && self->tmp_dim == __CPROVER_old(self->tmp_dim) &&
+                   self->state == ADJ_END_STATE(s_flt_end)))
+/* refused with a located diagnostic (ADJ_COMMON_POST: entering s_error records the line), and what is dimensioned is empty */
+__CPROVER_ensures((!start && !gv_usable) ==>
+                  (self->state == s_error && self->errCode != 0 && self->tmp_dim == 0 && self->tmp_band == 0))
+__CPROVER_ensures(!start ==> (self->adj->cov.dim == self->tmp_dim && self->adj->cov.band == self->tmp_band))
+__CPROVER_ensures(!start ==> (ADJ_ITER_SPAN(self) && self->gv_iter_init && OFF(self->tmp_i) == 0))
 ADJ_COMMON_POST
 //@ entry ADJ_band
 GV_CANARY("ADJ_band entry");
+gv_dim0 = self->tmp_dim;
+//@ at ADJ_band announced
+__CPROVER_assert(self->tmp_dim == gv_dim0 && self->tmp_band == gv_int, "the verdict is taken on the number </dim> stored and the number </band> converted");
+gv_usable = ADJ_DIMS_USABLE(self->tmp_dim, self->tmp_band);
 //@ at ADJ_band iters
 self->gv_iter_init = 1;
 //@ end
@@ -246,14 +262,20 @@ GV_CANARY("ADJ_flt entry");
 /* </cov-mat>: a band that was not filled completely is refused                                        */
 //@ contract ADJ_cov_mat
 ADJ_COMMON_PRE
+__CPROVER_requires(!start ==> ADJ_ITER_INV(self))
 __CPROVER_assigns(self->state, self->errCode, self->errLineNumber, gv_push_n, gv_push_h)
+__CPROVER_assigns(start: self->tmp_dim, self->tmp_band, self->tmp_i, self->tmp_e, self->gv_iter_init)
 ADJ_START_POST(ADJ_H_cov_mat, s_cov_mat)
+/* <cov-mat> opened: nothing announced, no element expected, iterators defined */
+__CPROVER_ensures(start ==> (self->tmp_dim == 0 && self->tmp_band == 0 && self->tmp_i == NULL && self->tmp_e == NULL && ADJ_ITER_INV(self)))
 __CPROVER_ensures((!start && self->tmp_i != self->tmp_e) ==> (self->state == s_error && self->errCode != 0))
 __CPROVER_ensures(!start ==> self->state == ((__CPROVER_old(self->state) != s_error && self->tmp_i == self->tmp_e)
                                              ? s_cov_mat_end : s_error))
 ADJ_COMMON_POST
 //@ entry ADJ_cov_mat
 GV_CANARY("ADJ_cov_mat entry");
+//@ at ADJ_cov_mat opened
+self->gv_iter_init = 1;
 //@ at ADJ_cov_mat compare
 __CPROVER_assert(self->gv_iter_init, "at </cov-mat> tmp_i / tmp_e have been assigned by </band> (the constructor leaves them indeterminate, the closing tag compares them)");
 //@ end
@@ -435,10 +457,6 @@ void h_cov_mat(void)
   bool start, stream;
   ADJ_STATIC_FACTS;
   mk_parser(&P, &D, &L, stream);
-#ifdef GV_EXCL_ADJRES_COVMAT_WITHOUT_BAND
-  /* exclusion predicate of the finding "</cov-mat> compares iterators nobody assigned": the element had a <band> */
-  __CPROVER_assume(start || stream);
-#endif
   ADJ_cov_mat(&P, start);
   GV_CANARY("h_cov_mat end");
 }
